@@ -93,6 +93,9 @@ def cases(tier, seed):
       c["d"] = 1
     if kind in ("conv1d", "conv2d", "dw", "sep1d", "sep2d") and rnd.random() < 0.3 and c["s"] in (1, (1, 1)):
       c["d"] = 2
+    if kind == "sep1d" and rnd.random() < 0.3:
+      c["df"] = "channels_first"                      # (batch, channels, steps)
+      c["xin"] = (c["xin"][0], c["xin"][2], c["xin"][1])
     if kind in ("conv1d", "sep1d") and c["pad"] == "causal" and rnd.random() < 0.6:
       c["s"], c["d"] = 1, pick([2, 2, 3])        # causal padding depends on the dilation: (k-1)*d leading steps
       c["k"] = max(c["k"], 2)
@@ -160,6 +163,8 @@ def build(c, rs):
                              depthwise_initializer=wi(), bias_initializer="zeros", **kw)
     kl = L.DepthwiseConv2D(tuple(c["k"]), strides=tuple(c["s"]), padding=c["pad"], depth_multiplier=c["dm"], dilation_rate=c["d"], **kw)
   elif kind == "sep1d":
+    if c.get("df"):
+      kw = dict(kw, data_format=c["df"])
     ql = qk.QSeparableConv1D(c["filters"], c["k"], strides=c["s"], padding=c["pad"], depth_multiplier=c["dm"], dilation_rate=c["d"],
                              depthwise_quantizer=c["wq"], pointwise_quantizer=c["wq2"], bias_quantizer=c["bq"],
                              activation=c["aq"], depthwise_initializer=wi(), pointwise_initializer=wi(), bias_initializer="zeros", **kw)
